@@ -12,6 +12,7 @@ from __future__ import annotations
 
 import datetime
 import importlib
+import os
 import random
 import shutil
 import time
@@ -950,9 +951,9 @@ def run_monitor(ctx, cases):
     import multiprocessing as mp
     import queue as _queue
 
-    tmp = ctx.build / "tmp"
+    tmp = ctx.build / f"tmp-{os.getpid()}"         # concurrent runs of this check must not share it
     shutil.rmtree(tmp, ignore_errors=True)
-    tmp.mkdir(parents=True)
+    tmp.mkdir(parents=True, exist_ok=True)
     mpc = mp.get_context("fork")
     q = mpc.Queue()
     indexed = list(enumerate(cases))
@@ -1112,7 +1113,7 @@ def run(ctx):
             done.append(("entry:" + entry, aseed, out))
             ctx.nontriv(("entry", entry, aseed))
     ctx.count(evaluations=len(done) + (60 if ctx.quick else 600), traces=len(done))
-    for f in ctx.build.glob("cases_*.v*"):
+    for f in ctx.build.glob(f"cases_{os.getpid()}_*"):
         f.unlink()
     files = []
     chunk = 120
@@ -1122,7 +1123,7 @@ def run(ctx):
                "Eval vm_compute in failing cases.\n"
                "Definition muts : list bool := [\n" + ";\n".join(o["mut"] for _, _, o in part) + "].\n"
                "Eval vm_compute in length (filter (fun b => b) muts).\n")
-        f = ctx.build / f"cases_{i // chunk}.v"
+        f = ctx.build / f"cases_{os.getpid()}_{i // chunk}.v"
         f.write_text(txt)
         files.append((f, part))
     res = ctx.coqc_many([f for f, _ in files], jobs=16, timeout=900)
@@ -1140,6 +1141,8 @@ def run(ctx):
         exposed += int(vals[1].replace("%nat", ""))
         for i in idx:
             mism.append((part[i][0], part[i][1], part[i][2]["outcome"]))
+    for f in ctx.build.glob(f"cases_{os.getpid()}_*"):
+        f.unlink()
     ctx.extra["kernel_cases_on_which_the_buggy_variant_would_write_an_argument"] = exposed
     ctx.obligation("heap-level correspondence: model outcome, frame and alias graph = implementation", not mism,
                    repr(mism[:6]))
